@@ -26,4 +26,7 @@ CONTROLS += [
          expect=r"dry_run-frame/"),
     dict(name="BENIGN: exmod reports the directory it would create under --dry-run as well as creating it otherwise (same guard)", benign=True,
          edits=[("cdd/compound/exmod.py", "    elif not path.isdir(output_directory):\n        makedirs(output_directory)\n", "    elif not path.isdir(output_directory):\n        print(\"creating\", output_directory)\n        makedirs(output_directory)\n")]),
+    dict(name="relative_filename falls back to a path relative to the working directory (`..` components; seed C20_f shape)",
+         edits=[("cdd/shared/pkg_utils.py", "        filename,\n    )\n", "        __import__(\"os\").path.relpath(filename),\n    )\n")],
+         expect=r"relative_filename/ensures\[0\]"),
 ]
